@@ -309,10 +309,16 @@ class Sim:
             fut = self.loop.create_future()
             h = self.loop.call_later(d, lambda f=fut: f.done() or f.set_result(None))
             self.stalled_hooks.append(fut)  # (begin_settle lets them return: faults stop there)
+            # a stalled hook is work in progress like a parked one (quiescence, "at rest", idle points): it sits in
+            # pending_hooks under a negative id, which no chooser / settle action ever names
+            self.next_hook_id += 1
+            sid = -self.next_hook_id
+            self.pending_hooks[sid] = fut
             try:
                 await fut
             finally:
                 h.cancel()
+                self.pending_hooks.pop(sid, None)
                 if fut in self.stalled_hooks:
                     self.stalled_hooks.remove(fut)
             ep = getattr(self, "eps", None) and self.eps.get(label)
@@ -376,6 +382,8 @@ class Sim:
                 if tr is not None and tr.paused:
                     out.append((("resume", conn.cid, s), cfg.get("w_resume", 2.0)))
         for hid in self.pending_hooks:
+            if hid < 0:
+                continue  # stalled: comes back by its own timer
             w = cfg.get("w_hook_done", 2.0)
             ep = getattr(self, "eps", None) and self.eps.get(self.hook_owner.get(hid))
             if ep is not None and getattr(ep, "_disconnect_in_progress", None) is not None:
@@ -736,7 +744,8 @@ class Sim:
         """Benign actions, canonical order: everything in flight moves FIFO."""
         out = []
         for hid in sorted(self.pending_hooks):
-            out.append(["hook_done", hid])
+            if hid > 0:
+                out.append(["hook_done", hid])
         for conn in self.net.conns:
             if conn.broken:
                 for side in sorted(conn.notify_pending):
